@@ -8,9 +8,9 @@ for d in sorted(glob.glob(os.path.join(HERE, 'seeded', sys.argv[1] if len(sys.ar
     if not (os.path.exists(mp) and os.path.exists(np_)):
         continue
     meta = json.load(open(mp))
-    paras = [re.sub(r'\s+', ' ', p).strip(' -') for p in re.split(r'\n\s*\n|\n(?=- )', open(np_).read()) if p.strip()]
+    paras = [re.sub(r'\s+', ' ', p).strip(' -*') for p in re.split(r'\n\s*\n|\n(?=[-*] )', open(np_).read()) if p.strip()]
     needs = [p for p in paras if re.match(r'(\*\*)?(Needs|Trigger|What it needs)', p, re.I)]
-    mech = [p for p in paras if re.match(r'(\*\*)?Mechanism', p, re.I)]
+    mech = [p for p in paras if re.match(r'(\*\*)?(Mechanism|Change)', p, re.I)] or [p for p in paras if p.startswith('#')]
     meta['breaks_property'] = meta.get('property')
     if mech:
         meta['mechanism'] = mech[0][:900]
